@@ -671,7 +671,7 @@ func r2(w *World, r *Report) {
 	}
 	inf := needFn(r, "R-2", w, fref{"node", "RigoApp", "Info"})
 	if inf != nil {
-		st := w.findStore(inf, "recv.lastBlockCtx", "recv.metaDB.LastBlockContext()")
+		st, _ := w.findStoreDeep(inf, "recv.lastBlockCtx", "recv.metaDB.LastBlockContext()")
 		r.Check(st != nil, "R-2", "RigoApp.Info:loads-context", "Info loads the persisted block context", "Info does not load the persisted block context", fnSite(w, inf))
 		// height and hash reported come from it
 		okRet := false
